@@ -358,6 +358,9 @@ def writer_bits(ex: Extractor, e: ast.AST, field: str, acc: Dict[str, Tuple[int,
 def reader_terms(ex: Extractor, body: Sequence[ast.stmt], var: str, slot_of: Dict[int, Tuple[int, List[str]]], state: Optional[List[Tuple[int, int]]] = None) -> List[Tuple[int, int]]:
     """Symbolic value of `var` after the block: OR of (flat slot index, left shift).  Fails closed on anything else."""
     terms: List[Tuple[int, int]] = list(state or [])
+    if not hasattr(ex, '_aux_slots'):
+        ex._aux_slots = {}       # type: ignore[attr-defined]
+    aux: Dict[str, int] = ex._aux_slots       # type: ignore[attr-defined]
 
     def slot_for(call: ast.AST, pos: int) -> int:
         if id(call) not in slot_of:
@@ -379,6 +382,11 @@ def reader_terms(ex: Extractor, body: Sequence[ast.stmt], var: str, slot_of: Dic
             # keep the configuration environment of the extractor in step (vers_num = 7 etc.) - already applied by extract()
             if isinstance(tgt, (ast.Tuple, ast.List)):
                 names = [dotted(e) for e in tgt.elts]
+                if var not in names and isinstance(val, ast.Call) and id(val) in slot_of:
+                    # other locals read from slots (`[flags_secondary] = struct_read('<I', f)`): remembered, they may be OR-ed in later
+                    for i_, nm_ in enumerate(names):
+                        if nm_:
+                            aux[nm_] = slot_for(val, i_)
                 if var in names:
                     if not (isinstance(val, ast.Call) and id(val) in slot_of):
                         raise AnalysisError(f'line {st.lineno}: {var} unpacked from something that is not a struct read')
@@ -401,6 +409,9 @@ def reader_terms(ex: Extractor, body: Sequence[ast.stmt], var: str, slot_of: Dic
                 shift, v = v.right.value, v.left
             if isinstance(v, ast.Subscript) and id(v.value) in slot_of:
                 terms.append((slot_for(v.value, 0), shift))
+                continue
+            if isinstance(v, ast.Name) and v.id in aux:
+                terms.append((aux[v.id], shift))
                 continue
             raise AnalysisError(f'line {st.lineno}: `{U(st)[:60]}` is not `|= <read>[0] << k`')
         if any(isinstance(n, ast.Name) and n.id == var and isinstance(n.ctx, ast.Store) for n in ast.walk(st)):
